@@ -355,6 +355,11 @@ def run(ctx: Ctx):
     r_numinv(ctx, model, tr)
     r_zero_henry_mono(ctx, model, tr, lists)
     ctx.analysed["models"] = lists["_MODELS"]
+    ctx.rule("M-iso: evaluating through a ModelIsotherm (pressure / loading_at / pressure_at / spreading_pressure_at) is the bare model "
+             "applied to F_in * x and scaled by F_out, with the permanent-conversion factors, for every stored representation x request "
+             "(the accessor interpretation of C03 restricted to ModelIsotherm)")
+    from .C03 import accessors_for
+    accessors_for(ctx, "C10", "M-iso", ["model"], floor=500)
     from ..sites import model_methods_stateless, no_memoisation
     ctx.rule("M-fresh: no caching decorator on any function of pygaps.modelling.")
     no_memoisation(ctx, load(ctx.root), "C10", "M-fresh", ('pygaps.modelling.',),
@@ -363,7 +368,8 @@ def run(ctx: Ctx):
 
 META = {
     "technique": "algebraic normal forms: model equations translated from the AST to sympy terms, identities normalised to 0; "
-                 "optimiser-call protocol rules; registry lint",
+                 "optimiser-call protocol rules; registry lint; abstract interpretation of the ModelIsotherm accessors against the "
+                 "conversion oracle",
     "level_text": "Static [ALG]: loading/pressure of all 16 model classes are translated from the source into symbolic terms "
                   "(positive parameter symbols); inverse identities, root-of-the-model-equation obligations, zero-pressure "
                   "values, Henry limits and (where syntactically decidable) monotonicity/boundedness are discharged by "
